@@ -40,6 +40,18 @@ CHECKS = {
  "C11": ("6/C11", "custom MIR dataflow rules (guarded push, provenance, length-preserving stages)",
   "Static, thin partial. Decides: ring closure under closed_ring with element 0 of the same normalised vector; requested subdivision honoured; one push per element in each stage. "
   "Does NOT decide finiteness, latitude range, orientation, longitude window (numerical)."),
+ "C13": ("6/C13", "global-state census, effect analysis over the resolved call graph, memo-table soundness with key enumeration from the range analysis",
+  "Static, all clauses (proof-style: every obligation enumerated and discharged mechanically). For EVERY call history and thread interleaving: statics are immutable, once-cells or "
+  "thread-local; no hand-written unsafe impl; the only user unsafe block is the thread-local accessor; once-cell initialisers are argument-free and reach no hidden input; no public "
+  "entry point (13 API functions + projection forward/inverse) reaches clock/env/fs/RNG/thread-id/pointer-to-int/shared mutable statics, hash iteration is sorted before use; each memo "
+  "table is written only by its getter, fill-once, with a slot index injective on the value-relevant key over all calling contexts and a key-only value; the per-thread object never leaves "
+  "its thread. Trusts std's OnceLock/LazyLock/thread_local!/lazy_static.", "proof"),
+ "C14": ("6/C14", "interprocedural abstract interpretation of MIR (intervals, value sets, linear facts + Fourier-Motzkin, vector lengths, field invariants, case splits)",
+  "Static, strong partial. For ALL u64 x i32 (and Option/slice/option-struct) arguments of the 13 API entry points: every integer-determined failure site reachable in any calling context "
+  "(overflow, shift amount, division, sign-losing/truncating cast, indexing, unwrap/expect/panic, allocation size) is discharged by the range analysis, is input-independent (once-cell "
+  "initialisers), or is a reviewed assumption listed with its reason (float geometry, beyond the 4^8 bound, C11's quantifier); hierarchy/lookup results are serialize() outputs or the world "
+  "cell; fallible entry points return Result<_, String>. Quick uses 5 assumptions that the thorough tier (case splits per decoded resolution) must discharge. Does NOT decide float-geometry "
+  "panics or termination beyond 'no wrapped-negative loop bound / allocation size'."),
  "C15": ("6/C15", "custom MIR sibling-agreement rules",
   "Static, partial. Decides: forward and inverse select (triangle index, reflect) identically from one polar value, unsquashed face triangle, own-face spherical triangle, correct slots and "
   "un-rotated point; inverse_quat/-angle in, quat/+angle out and in the CRS; inverse_quat = conjugate(quat); squashed only in compute_spherical_triangle. Does NOT decide round-trip error bounds."),
@@ -63,10 +75,7 @@ NA = {
  "C12": "overlap fractions and centre distances of child and parent polygons are numerical facts of the digit-shift geometry; their structural preconditions are decided under C17 and C06",
  "C16": "local area scale of the projection to 1e-4 is a numerical-analysis statement about polyhedral.forward/inverse; pinning its formula would be a frozen fragment",
 }
-PENDING = {
- "C13": "check under construction in this session (purity rule pack: statics census, memo soundness, hidden inputs) - not yet registered",
- "C14": "check under construction in this session (obligation discharge by abstract interpretation) - not yet registered",
-}
+PENDING = {}
 
 def main():
     import importlib.util, sys
